@@ -38,6 +38,32 @@ def _yields_type(stmt: ast.AST, sn: str, type_attr: str) -> List[ast.AST]:
     return out
 
 
+def _yields_on_path(stmts: List[ast.stmt], sn: str, type_attr: str) -> Tuple[int, int]:
+    """(min, max) number of such yields executed by one pass through a statement list: the two arms of an `if` are
+    alternatives, not a sum (`yield A if c else B` and its if-statement spelling both count once); loops count their
+    body once (they are looked at separately)."""
+    lo = hi = 0
+    for st in stmts:
+        if isinstance(st, ast.If):
+            a = _yields_on_path(st.body, sn, type_attr)
+            b = _yields_on_path(st.orelse, sn, type_attr)
+            own = len(_yields_type(st.test, sn, type_attr))
+            lo += own + min(a[0], b[0])
+            hi += own + max(a[1], b[1])
+        elif isinstance(st, (ast.For, ast.While, ast.With, ast.Try)):
+            inner: List[ast.stmt] = []
+            for field in ('body', 'orelse', 'finalbody'):
+                inner += getattr(st, field, []) or []
+            a = _yields_on_path(inner, sn, type_attr)
+            lo += a[0]
+            hi += a[1]
+        else:
+            k_ = len(_yields_type(st, sn, type_attr))
+            lo += k_
+            hi += k_
+    return lo, hi
+
+
 def _cmp(test: ast.AST) -> Optional[Tuple[str, str, str]]:
     if isinstance(test, ast.Compare) and len(test.ops) == 1:
         return norm(test.left), type(test.ops[0]).__name__, norm(test.comparators[0])
@@ -227,7 +253,8 @@ def run_pairing(ctx: Ctx) -> RuleResult:
     for m, n in pushes:
         st = enclosing_stmt(n)
         blk = _block_of(st) or []
-        ys = [y for s in blk for y in _yields_type(s, m.self_name(), 'INDENT_type')]
+        ys = [None] * _yields_on_path(blk, m.self_name(), 'INDENT_type')[1] if _yields_on_path(blk, m.self_name(), 'INDENT_type')[0] == \
+            _yields_on_path(blk, m.self_name(), 'INDENT_type')[1] else [None] * 99
         ok = len(ys) == 1 and norm(n.args[0]) == width_var
         res.ob(m.loc(n), 'push of the new width is paired with exactly one INDENT in the same block', ok)
         if not ok:
@@ -240,7 +267,7 @@ def run_pairing(ctx: Ctx) -> RuleResult:
             fail(m, st, 'INDENT is not emitted exactly when the new indentation exceeds the current level '
                         '(guard %s)' % [norm(g.test) for g in guards], 'push-guard')
     # INDENT yields only at pushes
-    all_ind = [y for m in k.methods.values() for y in _yields_type(m.node, m.self_name() or 'self', 'INDENT_type')]
+    all_ind = [None] * sum(_yields_on_path(m.node.body, m.self_name() or 'self', 'INDENT_type')[1] for m in k.methods.values())
     ok = len(all_ind) == len(pushes)
     res.ob(site_h, 'no INDENT is emitted without a push', ok)
     if not ok:
@@ -250,11 +277,11 @@ def run_pairing(ctx: Ctx) -> RuleResult:
     for m, n in pops:
         st = enclosing_stmt(n)
         blk = _block_of(st) or []
-        ys = [y for s in blk for y in _yields_type(s, m.self_name(), 'DEDENT_type')]
-        ok = len(ys) == 1
-        res.ob(m.loc(n), 'pop is paired with exactly one DEDENT in the same block', ok)
+        ys = _yields_on_path(blk, m.self_name(), 'DEDENT_type')
+        ok = ys == (1, 1)
+        res.ob(m.loc(n), 'pop is paired with exactly one DEDENT in the same block (on every path through it)', ok)
         if not ok:
-            fail(m, st, 'a level is popped without emitting exactly one DEDENT (found %d)' % len(ys), 'pop-pairing')
+            fail(m, st, 'a level is popped without emitting exactly one DEDENT (between %d and %d on the paths of the block)' % ys, 'pop-pairing')
         loops = [a for a in ancestors(st) if isinstance(a, ast.While) and st in a.body]
         if m is hnl:
             ok = any(_is_cmp(l.test, width_var, 'Lt', top) for l in loops)
@@ -267,7 +294,7 @@ def run_pairing(ctx: Ctx) -> RuleResult:
             if not ok:
                 fail(m, st, 'end-of-stream drain does not pop down to exactly the base level (%s)'
                      % [norm(l.test) for l in loops], 'drain-guard')
-    all_ded = [y for m in k.methods.values() for y in _yields_type(m.node, m.self_name() or 'self', 'DEDENT_type')]
+    all_ded = [None] * sum(_yields_on_path(m.node.body, m.self_name() or 'self', 'DEDENT_type')[1] for m in k.methods.values())
     ok = len(all_ded) == len(pops)
     res.ob(site_h, 'no DEDENT is emitted without a pop', ok)
     if not ok:
@@ -288,9 +315,8 @@ def run_pairing(ctx: Ctx) -> RuleResult:
         fail(hnl, hnl.node, 'a dedent to a column that is not an open level does not raise DedentError', 'dedent-error')
 
     # -- brackets -----------------------------------------------------------------------------
-    first = hnl.node.body[0] if hnl.node.body else None
-    if first is not None and isinstance(first, ast.Expr) and isinstance(first.value, ast.Constant):
-        first = hnl.node.body[1] if len(hnl.node.body) > 1 else None
+    from ..model import core_stmts
+    first = (core_stmts(hnl.node.body) or [None])[0]
     ok = isinstance(first, ast.If) and _is_cmp(first.test, '%s.paren_level' % sn, 'Gt', '0') \
         and len(first.body) == 1 and isinstance(first.body[0], ast.Return) and not first.orelse
     res.ob(site_h, 'handle_NL returns before emitting anything when paren_level > 0', ok)
